@@ -12,7 +12,7 @@ from pathlib import Path
 VERIF = Path(__file__).resolve().parent.parent
 COQ = VERIF / "coq"
 DRIVER = COQ / "Extract" / "ml" / "model_driver"
-REPO = Path("/repo")
+REPO = Path(os.environ.get("VERIF_REPO", "/repo"))   # the registered checks never set VERIF_REPO: they read /repo itself
 
 # the implementation is always imported from the current working tree of /repo
 if str(REPO / "src") not in sys.path:
